@@ -23,7 +23,7 @@ import numpy as np
 
 from harness import classify, graphs as G, progcheck as PC, programs as P
 
-KNOWN = ("swv-layout-drift", "take-through-broadcast", "minmax-zero-size", "swv-nested-wrong-values", "broadcast-axis-zero-width-chunk")
+KNOWN = ("swv-layout-drift", "take-through-broadcast", "minmax-zero-size", "swv-nested-wrong-values", "broadcast-axis-zero-width-chunk", "eye:offset:first-row-chunk-shorter")
 OPS = P.DEFAULT_OPS + ("swv_reduce", "swv_reduce", "rechunk", "getitem", "getitem", "concatenate", "reduce")
 
 
